@@ -426,6 +426,7 @@ ATTR_PAYLOADS = [
 TEXT_PAYLOADS = [
     'a"b', "a'b", 'a<b', 'a>b', 'a&b', 'a&amp;b', ']]>', 'a\tb', 'a\nb', ' lead', 'trail ',
     'dou  ble', '100%', 'é', '\U0001F600x', 'y' * 5000, '', 'a\rb',
+    'long ' + 'z' * 20000 + ' tail', 'é' * 6000,      # longer than expat's 8 kB text buffer
 ]
 ID_PAYLOADS = ['x.y-z_1', 'ïd-é', '日本', 'A', 'a']
 
